@@ -268,7 +268,7 @@ class C16(Prop):
             "end, '-' where not allowed, failed test, missing op/path/value/from, members of the wrong JSON type, move into own child, "
             "wrong-case key/op, unknown op, path through a scalar, leading-zero index); syntactically valid pointers only; plus documents 998..1500 levels deep with operations at the bottom. Oracle: status == 0 "
             "iff the RFC 6902 reference evaluator succeeds, and then the document equals the reference result (arrays ordered, objects as sets); "
-            "always: document structurally sound, document + patch delete to an empty ledger. (robustness) arbitrary JSON values as patch, "
+            "always: document structurally sound, document + patch delete to an empty ledger; in a fifth of the object documents a member is a REFERENCE to a tree owned elsewhere, the patch copies it and edits the copy, and the owner's tree must stay as it was. (robustness) arbitrary JSON values as patch, "
             "near-patches with invalid pointers, and libFuzzer fz_patch (document text NUL patch text): no report, no leak, sound tree. "
             "non-trivial = >= 2 ops applied before the verdict, or a path needing ~0/~1, or a failure at op >= 2; distinct by case hash")
     ASSUMPTIONS = ["'remove' of the whole document is outside conformance (left open by the property)",
